@@ -138,7 +138,7 @@ Lemma rf_sim_blocks : forall t0 bl rest pre cs blks x st st',
     py_do_all pd (py_plan small (py_sdf pd) (Z.of_N (wm_f_omit (wm_fx_fsr x1))) rest) st1 = PyOk st'.
 Proof.
   intros t0 bl. induction bl as [|b bl IH]; intros rest pre cs blks x st st' HS Hfull Hdts Hom Hpy x1.
-  - exists [], st. rewrite !app_nil_r. subst x1. cbn [fold_left]. repeat split; assumption.
+  - exists [], st. rewrite !app_nil_r. subst x1. cbn [fold_left]. cbn [map app] in Hpy. split; [exact HS|]. split; [exact Hdts|]. split; [exact Hom|exact Hpy].
   - inversion Hfull as [|? ? Hb Hbl]; subst.
     assert (Hbne : b <> []) by (intro E; subst b; cbn in Hb; lia).
     assert (Hblen : rf_len b <= sg_spd d) by (unfold rf_len; lia).
@@ -155,7 +155,60 @@ Proof.
     destruct (IH rest pre (cs ++ cs1) (blks ++ [b]) _ st1 st' HS1 Hbl Hdts1 ltac:(rewrite Eom; exact Hom1) Hpy) as (cs2 & st2 & HS2 & Hdts2 & Hom2 & Hpy2).
     exists (cs1 ++ cs2), st2. subst x1. cbn [fold_left].
     rewrite app_assoc. replace (blks ++ b :: bl) with ((blks ++ [b]) ++ bl) by (rewrite <- app_assoc; reflexivity).
-    repeat split; assumption.
+    split; [exact HS2|]. split; [exact Hdts2|]. split; [exact Hom2|exact Hpy2].
+Qed.
+
+
+(* ---- close: summary_close for levels 1 .. 15 ---- *)
+Lemma rf_R_weaken : forall lo lo' offs x st, (lo <= lo')%nat -> rf_R d pos0 lo offs x st -> rf_R d pos0 lo' offs x st.
+Proof.
+  intros lo lo' offs x st Hle [Rbok Rtok Rty Rlvlen Rpos Rnz Rheads Rdhead Rlvls Rdts].
+  constructor; try assumption. intros L HL. apply Rlvls. lia.
+Qed.
+Lemma rf_S_weaken : forall t0 lo lo' pre cs blks x st, (lo <= lo')%nat -> rf_S d pos0 t0 lo pre cs blks x st -> rf_S d pos0 t0 lo' pre cs blks x st.
+Proof. intros t0 lo lo' pre cs blks x st Hle (A & B & C). split; [eapply rf_R_weaken; eauto|]. split; assumption. Qed.
+
+Lemma rf_py_wr_summary_empty : forall k L st, pl_idx (py_lvl_get st L) = [] -> pl_sum (py_lvl_get st L) = 0%Z ->
+  py_wr_summary (S k) pd L st = PyOk st.
+Proof. intros k L st Hi Hs. cbn [py_wr_summary]. rewrite Hi, Hs. reflexivity. Qed.
+
+Lemma rf_sim_close_level : forall t0 L pre cs blks x st st',
+  rf_S d pos0 t0 L pre cs blks x st -> (1 <= L <= 15)%nat ->
+  py_wr_summary (16 - L) pd L st = PyOk st' ->
+  exists cs', rf_S d pos0 t0 (S L) pre (cs ++ cs') blks (wm_fsr_summary_close summN d x (N.of_nat L)) st'.
+Proof.
+  intros t0 L pre cs blks x st st' HS HL Hpy. unfold wm_fsr_summary_close.
+  pose proof HS as (HR & HF & Hout).
+  destruct (wm_f_get_level (wm_fx_fsr x) (N.of_nat L)) as [lv|] eqn:Elv.
+  - destruct (rf_sim_wr_summary summN d pos0 t0 L Hpos0 Hsid Hg_idx Hg_sum (16 - L) L wm_level_count pre cs blks x st st' lv HS
+               ltac:(lia) ltac:(lia) eq_refl ltac:(change wm_level_count with 16%nat; lia) Elv Hpy) as (cs' & HS').
+    exists cs'. destruct HS' as (HR' & HF' & Hout').
+    split; [|split; [exact HF'|exact Hout']].
+    destruct HR' as [Rbok Rtok Rty Rlvlen Rpos Rnz Rheads Rdhead Rlvls Rdts].
+    constructor; cbn [wm_fx_base wm_fx_tk wm_fx_fsr wm_fx_set_fsr]; try assumption.
+    + rewrite rf_set_level_len. exact Rlvlen.
+    + intros M HM. rewrite rf_get_set_level_neq by lia. apply Rlvls. lia.
+  - exists []. rewrite app_nil_r.
+    pose proof (R_lvls _ _ _ _ _ HR L ltac:(lia)) as Hrel. rewrite Elv in Hrel. destruct Hrel as (_ & _ & C & D).
+    replace (16 - L)%nat with (S (15 - L)) in Hpy by lia.
+    rewrite rf_py_wr_summary_empty in Hpy by (try exact D; apply C; exact D). injection Hpy as <-.
+    apply (rf_S_weaken t0 L); [lia|exact HS].
+Qed.
+
+Lemma rf_sim_close_loop : forall t0 k L pre cs blks x st st',
+  rf_S d pos0 t0 L pre cs blks x st -> (1 <= L)%nat -> (L + k = 16)%nat ->
+  py_close_loop k pd L st = PyOk st' ->
+  exists cs', rf_S d pos0 t0 16 pre (cs ++ cs') blks
+                   (fold_left (wm_fsr_summary_close summN d) (map N.of_nat (seq L k)) x) st'.
+Proof.
+  intros t0 k. induction k as [|k IH]; intros L pre cs blks x st st' HS HL Hk Hpy.
+  - cbn in Hpy. injection Hpy as <-. exists []. rewrite app_nil_r. cbn [seq map fold_left].
+    replace L with 16%nat in HS by lia. exact HS.
+  - cbn [py_close_loop] in Hpy. unfold py_bind in Hpy.
+    destruct (py_wr_summary (16 - L) pd L st) as [st1|e] eqn:E1; [|discriminate].
+    destruct (rf_sim_close_level t0 L pre cs blks x st st1 HS ltac:(lia) E1) as (cs1 & HS1).
+    destruct (IH (S L) pre (cs ++ cs1) blks _ st1 st' HS1 ltac:(lia) ltac:(lia) Hpy) as (cs2 & HS2).
+    exists (cs1 ++ cs2). rewrite app_assoc. cbn [seq map fold_left]. exact HS2.
 Qed.
 
 End RF_PYR2.
